@@ -198,6 +198,30 @@ def check(ctx):
                 for key in ('agents', 'best_agent', 'local'):
                     if hasattr(h, key):
                         check_get(C, drv, L, h, key, f"{c['kind']}-after-dump")
+            # every other recorded key is a series too: user-dumped integers (exactly), the elapsed time, GP's best trees
+            rp_o = dict(how='other-keys', cfg=c)
+            try:
+                big = [2 ** 60 + 1, 5, -7]
+                hu = L['History']()
+                for b_ in big:
+                    hu.dump(counter=b_, pair=[b_, 1])
+                got = hu.get('counter', ())
+                if [int(x) for x in got] != big or str(np.asarray(got).dtype).startswith('float'):
+                    C.issue('get-wrong-values', 'oracle', dict(rp_o, key='counter'), got=repr(got)[:80], want=big)
+                got = hu.get('pair', (0,))
+                if [int(x) for x in got] != big:
+                    C.issue('get-wrong-values', 'oracle', dict(rp_o, key='pair'), got=repr(got)[:80], want=big)
+                if hasattr(h, 'time'):
+                    got = h.get('time', ())
+                    if [float(x) for x in got] != [float(x) for x in h.time]:
+                        C.issue('get-wrong-values', 'oracle', dict(rp_o, key='time'), got=repr(got)[:80])
+                if 'best_tree' in vars(h):
+                    got = h.get('best_tree', ())
+                    if len(got) != len(h.best_tree) or any(a_ is not b_ for a_, b_ in zip(got, h.best_tree)):
+                        C.issue('get-wrong-values', 'oracle', dict(rp_o, key='best_tree'), got=repr(got)[:80])
+                C.case(key=('other-keys', c['kind'], c['store_best_only']), nontrivial=True, kind='get-other-keys')
+            except Exception as ex:
+                C.issue('get-raised', 'oracle', rp_o, error=type(ex).__name__ + ': ' + str(ex)[:80])
             # save / load
             path = os.path.join(scratch, f'h_{n_hist}.pkl')
             rp = dict(how='saveload', cfg=c)
